@@ -11,7 +11,7 @@ from .core import Unsupported, find_def
 from .driver_py import COQTY, MTr, V, dotted, opaque, prop_listcomp, returned_value
 from .lazy import normalise
 
-OUTPUTS = ["GenStops.v"]
+OUTPUTS = ["GenStops.v", "GenStopsPrecision.v"]
 COQTY.update({"deme_list": "(list nat)"})
 GSC, USC, LSC, TREE = "pyhms/stop_conditions/gsc.py", "pyhms/stop_conditions/usc.py", "pyhms/stop_conditions/lsc.py", "pyhms/tree.py"
 DEME_FIELDS = {"is_active": ("d_active", "bool"), "_active": ("d_active", "bool"), "level": ("d_lvl", "nat"), "_level": ("d_lvl", "nat"),
@@ -232,7 +232,53 @@ def translate(repo):
         fns.append(f"{src}:{cls}.__call__[{obj}]")
     out.append(transform_weights(gmod))
     fns += [f"{GSC}:FitnessEvalLimitReached._transform_weights", f"{GSC}:FitnessEvalLimitReached.__call__[weights guard]"]
-    return {"GenStops.v": "\n".join(out)}, fns
+    fns.append(f"{GSC}:SingularProblemPrecisionReached.__call__")
+    return {"GenStops.v": "\n".join(out), "GenStopsPrecision.v": precision_reached(gmod)}, fns
+
+
+# ---------------------------------------------------------------- SingularProblemPrecisionReached: reads the flag of the wrapper it was given
+def precision_reached(gmod):
+    cls = "SingularProblemPrecisionReached"
+    init, call = find_def(gmod, "__init__", cls), find_def(gmod, "__call__", cls)
+    ia = [a.arg for a in init.args.args]
+    if len(ia) != 2 or ia[0] != "self" or init.args.defaults or init.args.vararg or init.args.kwarg:
+        raise Unsupported(f"{GSC}:{init.lineno}: {cls}.__init__ signature changed: {ia}")
+    stores = {}
+    for st in init.body:
+        if isinstance(st, ast.Expr) and isinstance(st.value, ast.Constant):
+            continue
+        if isinstance(st, ast.Assign) and len(st.targets) == 1 and dotted(st.targets[0]) and dotted(st.targets[0]).startswith("self.") and isinstance(st.value, ast.Name) and st.value.id == ia[1]:
+            stores[dotted(st.targets[0])] = "w"
+        else:
+            raise Unsupported(f"{GSC}:{st.lineno}: {cls}.__init__ does more than keep the wrapper it is given: {ast.unparse(st)[:80]}")
+    ca = [a.arg for a in call.args.args]
+    body = [st for st in call.body if not (isinstance(st, ast.Expr) and isinstance(st.value, ast.Constant))]
+    if len(ca) != 2 or len(body) != 1 or not isinstance(body[0], ast.Return) or body[0].value is None:
+        raise Unsupported(f"{GSC}:{call.lineno}: {cls}.__call__ is not a single return")
+
+    def ex(e):
+        if isinstance(e, ast.Call) and dotted(e.func) == "bool" and len(e.args) == 1 and not e.keywords:
+            return ex(e.args[0])
+        if isinstance(e, ast.UnaryOp) and isinstance(e.op, ast.Not):
+            return f"(negb {ex(e.operand)})"
+        if isinstance(e, ast.BoolOp):
+            op = "orb" if isinstance(e.op, ast.Or) else "andb"
+            code = ex(e.values[0])
+            for v in e.values[1:]:
+                code = f"({op} {code} {ex(v)})"
+            return code
+        if isinstance(e, ast.Compare) and len(e.ops) == 1 and isinstance(e.ops[0], (ast.Is, ast.Eq)) and isinstance(e.comparators[0], ast.Constant) and e.comparators[0].value is True:
+            return ex(e.left)
+        if isinstance(e, ast.Constant) and isinstance(e.value, bool):
+            return "true" if e.value else "false"
+        d = dotted(e)
+        if d is not None and d.endswith(".hit_precision") and d[:-len(".hit_precision")] in stores:
+            return "(hit_precision w)"
+        raise Unsupported(f"{GSC}:{call.lineno}: {cls}.__call__: verdict not understood: {ast.unparse(e)[:80]}")
+    return ("(* GENERATED from pyhms/stop_conditions/gsc.py by hv/translate/stops_py.py — do not edit *)\n"
+            "From Coq Require Import Bool.\nFrom HV Require Import WMonad.\n\n"
+            "(* the verdict of SingularProblemPrecisionReached(problem), as a function of the state w of the PrecisionCutoffProblem it was constructed with *)\n"
+            f"Definition gen_SingularProblemPrecisionReached (w : wobj) : bool :=\n  {ex(body[0].value)}.\n")
 
 
 # ---------------------------------------------------------------- FitnessEvalLimitReached: what `self.weights` is when the sum is taken
